@@ -146,23 +146,28 @@ def _run(mod, args, seed, t0):
     n_viol = 0
     known_hits = {}
     lines = []
+    unknown = []
     for key in sorted(by_sig):
         v = by_sig[key]
         e = match_known(v["signature"], known)
         if e is not None:
             known_hits.setdefault(e["what"], 0)
             known_hits[e["what"]] += 1
-            continue
-        # confirm in a fresh interpreter before reporting
-        rr = pool.run_tasks(mod.ENGINE, [{"kind": "replay", "scenario": v["scenario"]}], workers=1, timeout_s=1800)[0]
-        if "harness_error" in rr:
-            raise HarnessError("replay of a violation failed: " + rr["harness_error"])
-        if not any(x["signature"] == v["signature"] for x in rr.get("violations", [])):
-            raise HarnessError("violation %s did not reproduce on replay in a fresh interpreter" % key)
-        path = write_replay(mod.PROP, v)
-        n_viol += 1
-        lines.append("VIOLATION property=%s replay=%s" % (mod.PROP, path))
-        print("violation: %s :: %s" % (key, v["message"][:600]))
+        else:
+            unknown.append((key, v))
+    if unknown:
+        # confirm every unlisted violation in fresh interpreters before reporting it
+        rrs = pool.run_tasks(mod.ENGINE, [{"kind": "replay", "scenario": v["scenario"]} for _, v in unknown],
+                             workers=args.workers, timeout_s=3600)
+        for (key, v), rr in zip(unknown, rrs):
+            if "harness_error" in rr:
+                raise HarnessError("replay of a violation failed: " + rr["harness_error"])
+            if not any(x["signature"] == v["signature"] for x in rr.get("violations", [])):
+                raise HarnessError("violation %s did not reproduce on replay in a fresh interpreter" % key)
+            path = write_replay(mod.PROP, v)
+            n_viol += 1
+            lines.append("VIOLATION property=%s replay=%s" % (mod.PROP, path))
+            print("violation: %s :: %s" % (key, v["message"][:600]))
     for what in sorted(known_hits):
         print("KNOWN-FINDING: property=%s %s" % (mod.PROP, what))
     for ln in lines:
